@@ -503,6 +503,32 @@ theorem bind_at_nonconst_ref_from_value_or_const_rejected (sig : Sig) (i j : Nat
     have hnc := (lref_binds hf hbj)
     simp_all
 
+/-- the same behind the bound values: signature position `j ≥ I` faces `f`'s parameter `j + (number of bound values)` -/
+theorem bind_at_nonconst_ref_after_bound_rejected (sig : Sig) (i j : Nat) (bound : List Base) (fn : Fn)
+    (hj : i ≤ j) (h1 : j + bound.length < fn.params.length) (h2 : j < sig.params.length)
+    (hf : fn.params[j + bound.length].shape = .lref) (hs : sig.params[j].shape ≠ .lref) :
+    accepts sig (.bind (some i) bound) fn = false := by
+  cases hacc : accepts sig (.bind (some i) bound) fn
+  · rfl
+  · obtain ⟨hle, hall, hb, _, _⟩ := (accepts_bind_at_iff sig i bound fn).1 hacc
+    obtain ⟨hlen, hall2⟩ := (bindsAll_iff _ _).1 hb
+    have hl1 : ((sig.params.take i).map stored ++ bound.map boundExpr).length = i + bound.length := by
+      simp; omega
+    have h3 : j + bound.length <
+        ((sig.params.take i).map stored ++ bound.map boundExpr ++ (sig.params.drop i).map stored).length := by
+      simp only [List.length_append, List.length_map, List.length_take, List.length_drop]; omega
+    have hbj := hall2 (j + bound.length) h1 h3
+    have hel : ((sig.params.take i).map stored ++ bound.map boundExpr ++ (sig.params.drop i).map stored)[j + bound.length] =
+        stored sig.params[j] := by
+      rw [List.getElem_append_right (by omega)]
+      simp only [hl1, List.getElem_map, List.getElem_drop]
+      congr 2
+      omega
+    rw [hel] at hbj
+    have hc := stored_const_of_not_lref sig.params[j] hs (hall _ (List.getElem_mem h2))
+    have hnc := (lref_binds hf hbj)
+    simp_all
+
 example : accepts ⟨[⟨.int, .val⟩], none⟩ (.bind (some 0) [.long]) ⟨.freeFn, [⟨.long, .val⟩, ⟨.int, .lref⟩], none⟩ = false
     ∧ accepts ⟨[⟨.int, .val⟩, ⟨.int, .val⟩], none⟩ (.bind (some 1) [.long])
         ⟨.freeFn, [⟨.int, .lref⟩, ⟨.long, .val⟩, ⟨.int, .val⟩], none⟩ = false
